@@ -69,7 +69,8 @@ def _digamma(x):
     if x <= 0.0:
         return _digamma(1 - x) - np.pi / np.tan(np.pi * x)
     if x <= 1e-5:
-        return -np.euler_gamma - (1 / x)
+        # series at the origin: -gamma - 1/x + zeta(2) x - ...
+        return -np.euler_gamma - (1 / x) + 1.6449340668482264 * x
     if x < 8.5:
         return _digamma(1 + x) - 1 / x
     xpm2 = 1 / x**2
@@ -93,8 +94,10 @@ def _trigamma(x):
     if x <= 0.0:
         return -_trigamma(1 - x) + np.pi**2 / np.sin(np.pi * x) ** 2
     if x <= 1e-4:
-        return 1 / x**2
-    if x < 5:
+        # series at the origin: 1/x^2 + zeta(2) - 2 zeta(3) x + ...
+        return 1 / x**2 + 1.6449340668482264 - 2.4041138063191885 * x
+    if x < 8.5:
+        # below this the truncation error of the asymptotic series exceeds 1e-15
         return _trigamma(1 + x) + 1 / x**2
     xpm1 = 1 / x
     xpm2 = 1 / x**2
